@@ -13,3 +13,17 @@ ASSUMPTIONS = ["illegality is judged by the independent rule model (vf/models), 
 _P = mp.HistoryProp(PROPERTY, "check_illegal", mp.C05Mon, n_quick=12, n_thorough=120, max_len=40,
                     styles=("legal", "survive", "solve", "legal", "solveish"), use_model_legality=True)
 _P.export(globals())
+
+
+# bounded exhaustive exploration of small deterministic environments (see modelprops.BFS_ENVS)
+_hist_work_items, _hist_run_item = work_items, run_item  # noqa: F821
+
+
+def work_items(tier, flt):  # noqa: F811
+    return _hist_work_items(tier, flt) + mp.bfs_work_items(PROPERTY, "check_illegal", tier, flt)
+
+
+def run_item(item, seed, tier):  # noqa: F811
+    if item.get("kind") == "bfs":
+        return mp.bfs_run_item(PROPERTY, item, seed, mp.C05Mon, "check_illegal")
+    return _hist_run_item(item, seed, tier)
